@@ -1,0 +1,127 @@
+// MIT License
+//
+// Copyright (c) 2022-2026 GoAkt Team
+//
+// Permission is hereby granted, free of charge, to any person obtaining a copy
+// of this software and associated documentation files (the "Software"), to deal
+// in the Software without restriction, including without limitation the rights
+// to use, copy, modify, merge, publish, distribute, sublicense, and/or sell
+// copies of the Software, and to permit persons to whom the Software is
+// furnished to do so, subject to the following conditions:
+//
+// The above copyright notice and this permission notice shall be included in all
+// copies or substantial portions of the Software.
+//
+// THE SOFTWARE IS PROVIDED "AS IS", WITHOUT WARRANTY OF ANY KIND, EXPRESS OR
+// IMPLIED, INCLUDING BUT NOT LIMITED TO THE WARRANTIES OF MERCHANTABILITY,
+// FITNESS FOR A PARTICULAR PURPOSE AND NONINFRINGEMENT. IN NO EVENT SHALL THE
+// AUTHORS OR COPYRIGHT HOLDERS BE LIABLE FOR ANY CLAIM, DAMAGES OR OTHER
+// LIABILITY, WHETHER IN AN ACTION OF CONTRACT, TORT OR OTHERWISE, ARISING FROM,
+// OUT OF OR IN CONNECTION WITH THE SOFTWARE OR THE USE OR OTHER DEALINGS IN THE
+// SOFTWARE.
+
+//go:build verif
+
+package actor
+
+import (
+	"sort"
+	"sync/atomic"
+
+	"github.com/tochemey/goakt/v4/hash"
+)
+
+// Verification harness only: read-only projections of a router actor's state, a
+// way to preset its round-robin counter (to reach the uint32 wrap-around without
+// routing 2^32 messages) and direct access to the consistent hash ring.
+// The projections must be read while the router is quiescent (VerifQuiescent).
+
+func verifRouterOf(pid *PID) *router {
+	if pid == nil {
+		return nil
+	}
+	r, _ := pid.Actor().(*router)
+	return r
+}
+
+// VerifQuiescent reports whether pid has no queued message and no turn in flight.
+func VerifQuiescent(pid *PID) bool {
+	return pid.schedState.Load() == dispatchIdle && pid.mailbox.IsEmpty() && pid.systemMailbox.IsEmpty()
+}
+
+// VerifRouterSetCounter presets the round-robin counter of the router actor pid.
+func VerifRouterSetCounter(pid *PID, v uint32) bool {
+	r := verifRouterOf(pid)
+	if r == nil {
+		return false
+	}
+	atomic.StoreUint32(&r.roundRobinNext, v)
+	return true
+}
+
+// VerifRouterCounter returns the round-robin counter of the router actor pid.
+func VerifRouterCounter(pid *PID) uint32 {
+	r := verifRouterOf(pid)
+	if r == nil {
+		return 0
+	}
+	return atomic.LoadUint32(&r.roundRobinNext)
+}
+
+// VerifRouterMembers returns the names of the routees in the router's map (sorted)
+// and the router's pool size field.
+func VerifRouterMembers(pid *PID) (names []string, poolSize int) {
+	r := verifRouterOf(pid)
+	if r == nil {
+		return nil, 0
+	}
+	names = make([]string, 0, len(r.routeesMap))
+	for _, routee := range r.routeesMap {
+		names = append(names, routee.Name())
+	}
+	sort.Strings(names)
+	return names, r.poolSize
+}
+
+// VerifRouterRingOwner returns the name of the routee the router's hash ring maps
+// key to ("" when there is no ring, the ring is empty, or the owner is not in the map).
+func VerifRouterRingOwner(pid *PID, key string) string {
+	r := verifRouterOf(pid)
+	if r == nil || r.ring == nil {
+		return ""
+	}
+	id := r.ring.lookup(key)
+	if routee, ok := r.routeesMap[id]; ok {
+		return routee.Name()
+	}
+	return "?" + id
+}
+
+// VerifRoutee resolves a routee of the given router by index.
+func VerifRoutee(system ActorSystem, routerName string, index int) (*PID, bool) {
+	sys, ok := system.(*actorSystem)
+	if !ok {
+		return nil, false
+	}
+	return sys.findRoutee(routeeName(index, routerName))
+}
+
+// VerifRouteeName returns the name the router gives to its index-th routee.
+func VerifRouteeName(routerName string, index int) string { return routeeName(index, routerName) }
+
+// VerifRing wraps the router's consistent hash ring.
+type VerifRing struct{ r *consistentHashRing }
+
+// VerifNewRing creates a consistent hash ring as the router does.
+func VerifNewRing(hasher hash.Hasher, virtualNodes int) *VerifRing {
+	return &VerifRing{r: newConsistentHashRing(hasher, virtualNodes)}
+}
+
+// Set rebuilds the ring with the given members (in the given order).
+func (v *VerifRing) Set(members []string) { v.r.set(members) }
+
+// Lookup returns the member owning key.
+func (v *VerifRing) Lookup(key string) string { return v.r.lookup(key) }
+
+// Len returns the number of points on the ring.
+func (v *VerifRing) Len() int { return v.r.len() }
